@@ -6,7 +6,18 @@ to depth d, deduplicating texts; every text reached is loaded and must give the
 seed's value tree, or be rejected if the seed is.  Seeds: corpus T (accepted and
 rejected), %define texts, configurations for the shipped logger and
 basic-mapping components.
+
+Key-type axis (wave 2): a generated schema family in which every container of one
+configuration has its own key type (every assignment over a small alphabet), the
+same raw key spellings are written under all of them, the key-case rewrite is
+permitted per line (only where the enclosing container's key type is
+case-insensitive), and every (seed, rewrite closure) is loaded in both orders,
+each order in a freshly forked process that has not loaded anything before - so
+that state kept between key lines, between sections, or between loads cannot
+hide behind a fixed load order.
 """
+import itertools
+
 from vz import core
 from vz.gen import corpus as C
 from vz.gen import schema as M
@@ -46,10 +57,28 @@ def header_parts(s):
     return parts[0], (parts[1] if len(parts) > 1 else None)
 
 
+def keycase_by_line(lines, kinds, keycase):
+    """Per line: may the letter case of a key on this line be changed?  `keycase` is a bool (the same answer
+    for every container of the text) or a map {section type name in lower case, None for the top level:
+    bool} saying which containers have a case-insensitive key type; the container of a line is found by
+    following the openers / closers above it (layout level only; unknown types: no)."""
+    if not isinstance(keycase, dict):
+        return [bool(keycase)] * len(lines)
+    out, st = [], [None]
+    for l, k in zip(lines, kinds):
+        out.append(bool(keycase.get(st[-1], False)))
+        if k == "open":
+            st.append(header_parts(l)[0].lower())
+        elif k == "close" and len(st) > 1:
+            st.pop()
+    return out
+
+
 def rewrites(lines, keycase_ok):
     """Yield (label, new_lines) for every single rewrite application."""
     n = len(lines)
     kinds = [classify(l) for l in lines]
+    kc_line = keycase_by_line(lines, kinds, keycase_ok)
     for i in range(n):
         if kinds[i] != "blank":
             yield "indent", lines[:i] + ["\t  " + lines[i]] + lines[i + 1:]
@@ -82,7 +111,7 @@ def rewrites(lines, keycase_ok):
                 yield "define-case", lines[:i] + [ind + " ".join([w[0], flip(w[1])] + w[2:])] + lines[i + 1:]
         elif k == "key":
             w = s.split(None, 1)
-            if keycase_ok:
+            if kc_line[i]:
                 yield "key-case", lines[:i] + [ind + " ".join([flip(w[0])] + w[1:])] + lines[i + 1:]
         if k in ("key", "define", "directive") and "$" in s:
             # flip the case of every $name / ${name} reference (not of '$$')
@@ -175,6 +204,237 @@ def explore_seed(sch, seed_text, keycase_ok, depth, acc, mid, reduced_depth=0):
 
 
 # ---------------------------------------------------------------------------
+# the key-type axis: every container of one configuration carries its own key type, the same raw key
+# spellings are used under all of them, and every (seed, rewrite closure) is loaded in both orders, each
+# order in a process in which no configuration has been loaded before.
+
+CI_KEYTYPES = ("basic-key", "ipaddr-or-hostname")       # documented as lower-casing their input
+KT_ALPHABET = {"quick": (None, "identifier", "ipaddr-or-hostname"),           # None: the default, basic-key
+               "thorough": (None, "identifier", "ipaddr-or-hostname", "dotted-name", "string")}
+KT_SPELLINGS = {"quick": ("Level", "Zz"), "thorough": ("Level", "level", "LEVEL", "Zz")}
+# slot -> (container type or None for the top level, value)
+KT_SLOTS = (("T", None, "1"), ("P", "p", "2"), ("Q1", "q", "3"), ("Q2", "q", "4"), ("T2", None, "5"))
+KT_ORDERS = ("seed-first", "seed-last")
+CASESET = ("key-case", "type-case", "name-case", "empty-to-pair", "pair-to-empty", "swap-keys")
+KT_CHUNKS = 4
+
+
+def kt_schema(kt_top, kt_p, kt_q):
+    """Three containers (the schema, <p> in it, <q> in <p> and in the schema) that all declare a key spelt
+    'Level'; p and q have a wildcard map (so an unknown key is stored), the schema has none (so it is refused)."""
+    q = M.SType("q", (M.Key("Level", "integer", default="0"), M.MultiKey("+", attribute="extra")), keytype=kt_q)
+    p = M.SType("p", (M.Key("Level", default="d"), M.MultiKey("Mk"),
+                      M.Sect("*", "q", attribute="qs", multi=True), M.Key("+", attribute="extra")), keytype=kt_p)
+    return M.Schema(types=(q, p), keytype=kt_top,
+                    items=(M.Key("Level", default="t"), M.MultiKey("Mk"),
+                           M.Sect("*", "p", attribute="ps", multi=True), M.Sect("*", "q", attribute="qs", multi=True)))
+
+
+def kt_seeds(tier):
+    """Every way of writing a key line into one or two of the 4 (thorough: 5) slots of a fixed skeleton, each
+    with every spelling.  -> list of (label, text, {spelling: set of containers})"""
+    nslots = 4 if tier == "quick" else 5
+    maxfill = 2
+    sp = KT_SPELLINGS[tier]
+    out = []
+    for nf in range(1, maxfill + 1):
+        for slots in itertools.combinations(range(nslots), nf):
+            for spell in itertools.product(sp, repeat=nf):
+                fill = dict(zip(slots, spell))
+
+                def ln(i, ind):
+                    return [ind + "%s %s" % (fill[i], KT_SLOTS[i][2])] if i in fill else []
+                lines = ln(0, "") + ["<p N1>"] + ln(1, "  ") + ["  <q>"] + ln(2, "    ") + ["  </q>", "</p>", "<q>"] + \
+                    ln(3, "  ") + ["</q>"] + (ln(4, "") if nslots > 4 else [])
+                used = {}
+                for i, w in fill.items():
+                    used.setdefault(w, set()).add(KT_SLOTS[i][1])
+                label = "+".join("%s=%s" % (KT_SLOTS[i][0], fill[i]) for i in slots)
+                out.append((label, "\n".join(lines) + "\n", used))
+    return out
+
+
+def closure(seed_lines, keycase, depth_all, depth_sub, sub):
+    """All texts reachable by <= depth_all applications of any rewrite, and all texts reachable by <= depth_sub
+    applications of the rewrites in `sub` alone, in breadth-first order, deduplicated, without the seed.
+    Pure text manipulation: nothing is loaded."""
+    seen = {tuple(seed_lines)}
+    frontier = [(seed_lines, ())]
+    out = []
+    top = max(depth_all, depth_sub)
+    for level in range(top):
+        nxt = []
+        for lines, path in frontier:
+            for label, new in rewrites(lines, keycase):
+                if level >= depth_all and (label not in sub or any(x not in sub for x in path)):
+                    continue
+                key = tuple(new)
+                if key in seen:
+                    continue
+                seen.add(key)
+                out.append((new, path + (label,)))
+                if level + 1 < top:
+                    nxt.append((new, path + (label,)))
+        frontier = nxt
+    return out
+
+
+def isolated(func, arg):
+    """func(arg) in a forked child of this process; the result comes back pickled.  The callers never load a
+    configuration (nor a schema) themselves, so every child starts from the state the interpreter had when the
+    check started: whatever the code under test keeps between loads is empty."""
+    import os
+    import pickle
+    import signal
+    import traceback
+    r, w = os.pipe()
+    pid = os.fork()
+    if pid == 0:
+        status = 1
+        try:
+            os.close(r)
+            signal.setitimer(signal.ITIMER_REAL, 0)
+            try:
+                out = ("ok", func(arg))
+            except BaseException:
+                out = ("err", traceback.format_exc())
+            with os.fdopen(w, "wb") as f:
+                pickle.dump(out, f, protocol=pickle.HIGHEST_PROTOCOL)
+            status = 0
+        finally:
+            os._exit(status)
+    os.close(w)
+    done = False
+    try:
+        with os.fdopen(r, "rb") as f:
+            data = f.read()
+        done = True
+    finally:
+        if not done:
+            try:
+                os.kill(pid, signal.SIGKILL)
+            except OSError:
+                pass
+        os.waitpid(pid, 0)
+    if not data:
+        raise core.HarnessError("isolated child died without a result")
+    st, val = pickle.loads(data)
+    if st != "ok":
+        raise core.HarnessError("isolated child failed:\n" + val)
+    return val
+
+
+def kt_explore(arg):
+    """Runs in a pristine child: load the schema, then the seed and its whole rewrite closure in the given
+    order; every rewritten text must give the seed's outcome.  -> (Acc, description of the seed's outcome)"""
+    mid, seed_text, keycase, order, depth_all, depth_sub = arg
+    acc = core.Acc()
+    sch = H.load_schema(mid["schema"])
+    seed_lines = seed_text.rstrip("\n").split("\n")
+    clo = closure(seed_lines, keycase, depth_all, depth_sub, CASESET)
+    texts = [seed_text] + ["\n".join(new) + "\n" for new, _ in clo]
+    seq = list(range(len(texts)))
+    if order == "seed-last":
+        seq.reverse()
+    outs = {}
+    for i in seq:
+        acc.current = texts[i]
+        outs[i] = outcome(sch, texts[i])
+        acc.ev()
+    acc.extra["kt-pristine-processes"] += 1
+    base = outs[0]
+    if base[0] == "internal":
+        acc.extra["seed_internal_errors(C07's)"] += 1
+        return acc, None
+    acc.cls("kt-seed-" + base[0])
+    acc.cls("kt-order-" + order)
+    loads = [texts[i] for i in seq]
+    for i in range(1, len(texts)):
+        got = outs[i]
+        path = clo[i - 1][1]
+        text = texts[i]
+        acc.transitions += 1
+        acc.nt()
+        acc.cls("kt-rewritten-" + got[0])
+        if "key-case" in path:
+            acc.extra["kt-texts-with-key-case-rewrite"] += 1
+        acc.sample(lambda: {"member": mid["name"], "seed": seed_text, "rewrites": list(path), "text": text,
+                            "order": order})
+        if got != base:
+            label = path[-1]
+            acc.violation("layout-changes-outcome",
+                          {"member": mid, "seed": seed_text, "rewrites": list(path), "text": text,
+                           "order": order, "loads": loads},
+                          [got[0], repr(got[1:])[:300]], [base[0], repr(base[1:])[:300]],
+                          tags={"kind": "layout", "rewrite": label if got[0] != "internal" else "internal",
+                                "seed": base[0], "got": got[0], "axis": "keytypes", "order": order},
+                          size=len(seed_text) + len(text) + 100 * len(path))
+    if order == "seed-first":
+        acc.states += len(texts)
+    acc.traces = acc.transitions
+    return acc, (base[0], core.digest(base), repr(base[1:])[:300])
+
+
+def kt_member(kts, tier):
+    S = kt_schema(*kts)
+    eff = {None: M.eff_keytype(S, None), "p": M.eff_keytype(S, "p"), "q": M.eff_keytype(S, "q")}
+    keycase = {c: (k in CI_KEYTYPES) for c, k in eff.items()}
+    name = "keytypes[top=%s,p=%s,q=%s]" % tuple(eff[c] for c in (None, "p", "q"))
+    return {"name": name, "schema": M.render(S)}, keycase
+
+
+def kt_preimport():
+    """Import (only import) what a load needs, so that the forked children do not each pay for it."""
+    import pickle                                   # noqa: F401
+    import xml.sax                                  # noqa: F401
+    import xml.sax.expatreader                      # noqa: F401
+    import ZConfig                                  # noqa: F401
+    import ZConfig.cfgparser                        # noqa: F401
+    import ZConfig.datatypes                        # noqa: F401
+    import ZConfig.info                             # noqa: F401
+    import ZConfig.loader                           # noqa: F401
+    import ZConfig.matcher                          # noqa: F401
+    import ZConfig.schema                           # noqa: F401
+    import ZConfig.substitution                     # noqa: F401
+    import ZConfig.url                              # noqa: F401
+
+
+def kt_shard(member, acc):
+    """One key-type assignment x one chunk of the seeds.  Nothing is loaded in this process."""
+    _, kts, chunk, tier = member
+    kt_preimport()
+    mid, keycase = kt_member(kts, tier)
+    depth_all, depth_sub = (1, 2) if tier == "quick" else (1, 3)
+    mixed = len(set(keycase.values())) == 2
+    if chunk == 0:
+        acc.extra["kt-schemas"] += 1
+        acc.extra["kt-schemas-mixing-ci-and-cs"] += 1 if mixed else 0
+    for n, (label, text, used) in enumerate(kt_seeds(tier)):
+        if n % KT_CHUNKS != chunk:
+            continue
+        acc.extra["kt-seeds"] += 1
+        if any(len({keycase[c] for c in cs}) == 2 for cs in used.values()):
+            acc.extra["kt-seeds-same-spelling-under-ci-and-cs"] += 1
+        bases = {}
+        for order in KT_ORDERS:
+            acc.current = {"member": mid["name"], "seed": text, "order": order}
+            a, b = isolated(kt_explore, (mid, text, keycase, order, depth_all, depth_sub))
+            acc.merge(a)
+            bases[order] = b
+        b1, b2 = bases["seed-first"], bases["seed-last"]
+        if b1 is not None and b2 is not None and b1[:2] != b2[:2]:
+            acc.violation("load-order-changes-outcome",
+                          {"member": mid, "seed": text, "axis": "keytypes", "order": "both",
+                           "depths": [depth_all, depth_sub], "keycase": {str(k): v for k, v in keycase.items()}},
+                          ["seed loaded after its rewrites", b2[0], b2[2]],
+                          ["seed loaded first", b1[0], b1[2]],
+                          tags={"kind": "history", "axis": "keytypes", "seed": b1[0], "got": b2[0]},
+                          size=len(text))
+    acc.current = None
+    return acc
+
+
+# ---------------------------------------------------------------------------
 # seeds
 
 LOGGER_SCHEMA = """<schema>
@@ -205,11 +465,15 @@ MAPPING_SCHEMA = """<schema>
 </schema>
 """
 
+# key case may be changed inside <dict> (basic-key), never inside <idkeys> (identifier)
+MAPPING_KEYCASE = {None: True, "dict": True, "idkeys": False}
 MAPPING_TEXTS = [
-    ("<dict foo>\n  key-one value-one\n  key-two value  two\n</dict>\n", True),
-    ("<dict/>\n<idkeys a>\n  Kx 1\n  kx 2\n</idkeys>\n<idkeys b/>\n", False),
-    ("<dict>\n  k v\n  K w\n</dict>\n", True),
-    ("<idkeys a>\n  k v\n</idkeys>\n<idkeys A>\n  k w\n</idkeys>\n", False),
+    ("<dict foo>\n  key-one value-one\n  key-two value  two\n</dict>\n", MAPPING_KEYCASE),
+    ("<dict/>\n<idkeys a>\n  Kx 1\n  kx 2\n</idkeys>\n<idkeys b/>\n", MAPPING_KEYCASE),
+    ("<dict>\n  k v\n  K w\n</dict>\n", MAPPING_KEYCASE),
+    ("<idkeys a>\n  k v\n</idkeys>\n<idkeys A>\n  k w\n</idkeys>\n", MAPPING_KEYCASE),
+    ("<dict>\n  Kx v\n</dict>\n<idkeys a>\n  Kx 1\n  kx 2\n</idkeys>\n", MAPPING_KEYCASE),
+    ("<idkeys a>\n  Kx 1\n  kx 2\n</idkeys>\n<dict>\n  Kx v\n  kX w\n</dict>\n", MAPPING_KEYCASE),
 ]
 
 DEFINE_SCHEMA = """<schema>
@@ -280,29 +544,98 @@ def run(tier):
     for i, t in enumerate(DEFINE_TEXTS):
         mem.append(("fixed", "define-%d" % i, DEFINE_SCHEMA, [t], tier))
     depth = 2 if tier == "quick" else 3
+    ktmem = [("keytypes", kts, c, tier) for kts in itertools.product(KT_ALPHABET[tier], repeat=3)
+             for c in range(KT_CHUNKS)]
+    kdepth = (1, 2) if tier == "quick" else (1, 3)
     run = core.Run(
         "C15", tier, "model_checking",
         rule="breadth-first search over rewrite applications from every seed (accepted and rejected corpus texts, "
              "capped per schema; %%define texts; logger and basic-mapping configurations): indent / trailing "
              "blanks on every line, blank / comment line at every position, letter case of every section type "
-             "(openers and closers independently), section name, define name, $-reference and (basic-key "
-             "containers) key, <t/> <-> <t></t>, swap of adjacent lines of different keys; all applications to "
+             "(openers and closers independently), section name, define name, $-reference and key (on the lines "
+             "whose enclosing container has a case-insensitive key type, decided per line), <t/> <-> <t></t>, swap "
+             "of adjacent lines of different keys; all applications to "
              "depth %d (thorough: depth 4 along a reduced rewrite set for short seeds), texts deduplicated.  "
+             "Key-type axis: a schema of three containers (top level, <p> in it, <q> in <p> and at the top) that "
+             "all declare a key spelt 'Level' (p, q also a wildcard map), with EVERY assignment of a key type from "
+             "%r to the three containers (None = default basic-key; case-insensitive = %r); seeds = every way of "
+             "writing a key line into 1..%d of the %d slots of a fixed skeleton (one slot per container instance) "
+             "with every spelling of %r, so the same raw spelling occurs under differing key types in either text "
+             "order; from each seed all rewrites to depth %d and the letter-case / empty-pair rewrites to depth %d; "
+             "each (schema, seed) closure is loaded in BOTH orders (seed first, then the rewritten texts breadth "
+             "first; and all rewritten texts in reverse with the seed last), each order in a freshly forked "
+             "process in which neither a schema nor a configuration has been loaded before; every text must give "
+             "the seed's outcome within its process, and the seed's outcome must be the same in both orders.  "
              "states = distinct texts, transitions = loads.  Non-trivial = rewritten text differing from its seed "
-             "in a non-blank line." % depth,
-        bounds={"members": len(mem), "depth": depth},
+             "in a non-blank line (key-type axis: counted per load order)."
+             % (depth, KT_ALPHABET[tier], CI_KEYTYPES, 2, 4 if tier == "quick" else 5,
+                KT_SPELLINGS[tier], kdepth[0], kdepth[1]),
+        bounds={"members": len(mem), "depth": depth,
+                "keytype_axis": {"key_types": list(KT_ALPHABET[tier]), "containers": 3,
+                                 "schemas": len(KT_ALPHABET[tier]) ** 3, "seeds_per_schema": len(kt_seeds(tier)),
+                                 "spellings": list(KT_SPELLINGS[tier]), "load_orders": list(KT_ORDERS),
+                                 "depth_all_rewrites": kdepth[0], "depth_case_rewrites": kdepth[1],
+                                 "process_per": "(schema, seed, load order)"}},
         assumptions=["structural digest of application objects (logger factories) by vz.harness.load.tree",
-                     "case rewrites touch ASCII letters only"])
+                     "case rewrites touch ASCII letters only",
+                     "case-insensitive key types are basic-key and ipaddr-or-hostname (both documented as "
+                     "converting to lower case); under any other key type the case of a key is never changed"])
+    # the key-type axis first: its children must be forked from processes that have not loaded anything
+    core.pmap(kt_shard, ktmem, run.acc, shard_budget=3000.0)
     core.pmap(shard, mem, run.acc, shard_budget=3000.0)
     a = run.acc
     run.require(a.classes.get("seed-tree", 0) > 50 and a.classes.get("seed-rejected", 0) > 50, "few seeds")
     run.require(a.classes.get("rewritten-tree", 0) > 1000, "few accepted rewritten texts")
+    x = a.extra
+    run.require(x.get("kt-schemas", 0) == len(KT_ALPHABET[tier]) ** 3 and
+                x.get("kt-schemas-mixing-ci-and-cs", 0) >= 12, "key-type axis: few schemas mixing key types")
+    run.require(x.get("kt-seeds-same-spelling-under-ci-and-cs", 0) > 100,
+                "key-type axis: few seeds with one spelling under a case-insensitive and a case-preserving key type")
+    run.require(x.get("kt-texts-with-key-case-rewrite", 0) > 5000, "key-type axis: few key-case rewrites")
+    run.require(a.classes.get("kt-order-seed-first", 0) == a.classes.get("kt-order-seed-last", 0) > 500 and
+                x.get("kt-pristine-processes", 0) == 2 * x.get("kt-seeds", 0),
+                "key-type axis: the two load orders were not both exercised for every seed")
+    run.require(a.classes.get("kt-seed-tree", 0) > 200 and a.classes.get("kt-seed-rejected", 0) > 200 and
+                a.classes.get("kt-rewritten-tree", 0) > 5000, "key-type axis: few accepted / rejected seeds")
     return run
+
+
+def _kt_replay_loads(arg):
+    schema, loads = arg
+    sch = H.load_schema(schema)
+    return [outcome(sch, t) for t in loads]
 
 
 def replay(body):
     case = body["case"]
     rc = 0
+    if case.get("order") == "both":
+        # the seed's outcome differs between the two load orders: re-run both, each in a fresh process
+        kc = {(None if k == "None" else k): v for k, v in case["keycase"].items()}
+        for _ in range(2):
+            res = {}
+            for order in KT_ORDERS:
+                _acc, b = isolated(kt_explore, (case["member"], case["seed"], kc, order) + tuple(case["depths"]))
+                res[order] = b
+                print("seed (%s):\n" % order + case["seed"] + "->", b)
+            if res["seed-first"] is None or res["seed-last"] is None or res["seed-first"][:2] != res["seed-last"][:2]:
+                rc = 1
+        return rc
+    if "loads" in case:
+        # key-type axis: the outcome may depend on what the process loaded before; repeat the whole load
+        # sequence of that process in a fresh one
+        loads = case["loads"]
+        for _ in range(2):
+            outs = isolated(_kt_replay_loads, (case["member"]["schema"], loads))
+            a = outs[loads.index(case["seed"])]
+            b = outs[loads.index(case["text"])]
+            print("load order %s: %d texts in a fresh process" % (case["order"], len(loads)))
+            print("seed (load #%d):\n" % loads.index(case["seed"]) + case["seed"] + "->", a[0], repr(a[1:])[:300])
+            print("rewritten (%s, load #%d):\n" % (case["rewrites"], loads.index(case["text"])) + case["text"] + "->",
+                  b[0], repr(b[1:])[:300])
+            if a != b:
+                rc = 1
+        return rc
     for _ in range(2):
         sch = H.load_schema(case["member"]["schema"])
         a = outcome(sch, case["seed"])
